@@ -233,6 +233,18 @@ def run_table_truth(chk, spec):
 			cols = [[] for _ in cols]
 		if spec.get("override") is not None:
 			t._repr_rows = spec["override"]
+		if spec.get("write_after_repr") and cols and len(cols[0]):
+			# shown once, then a cell write that changes a column's dtype in place (None: nullable; a float into ints: promotion): the next repr states the dtypes of NOW
+			call(repr, t)
+			j = spec["write_after_repr"][0] % len(cols)
+			val = {"none": None, "float": 2.5}[spec["write_after_repr"][1]]
+			if val is None or all(type(x) is int for x in cols[j] if x is not None):
+				w = call(t.cols()[j].__setitem__, 0, val) if spec["write_after_repr"][2] == "view" else call(t.__setitem__, (0, j), val)
+				if w.ok:
+					cols = [list(c) for c in cols]
+					cols[j][0] = val
+					if val == 2.5:
+						cols[j] = [None if x is None else (x if i == 0 else float(x)) for i, x in enumerate(cols[j])]
 		before = snap(t)
 		o = call(repr, t)
 		k = effective_k(spec, spec.get("override"))
@@ -381,11 +393,21 @@ def run_total(chk, spec):
 	setup_limits(spec)
 	try:
 		kind = spec["obj"]
+		if spec.get("factory") == "namesake":
+			# user classes that merely share their NAME with a built-in kind (no subclass): formatted like any other object
+			mk = lambda nm: type(nm, (), {"__init__": lambda self, x: setattr(self, "x", x), "__repr__": lambda self: f"<{nm} {self.x}>"})
+			cls = mk(spec["classname"])
+			spec = dict(spec)
+			if kind == "vector":
+				spec["values"] = [cls(1), cls(2), cls(3)] if spec.get("what", "").endswith("only") else [cls(1), None, cls(3)]
+			else:
+				spec["cols"] = [[cls(1), cls(2)], [3, 4]]
 		if spec.get("factory") == "unprintable":
-			# objects whose text cannot be produced at all
+			# objects whose text cannot be produced at all (whatever their __str__ raises)
+			exc = {"RuntimeError": RuntimeError, "AttributeError": AttributeError, "KeyError": KeyError, "ZeroDivisionError": ZeroDivisionError, "Custom": type("Custom", (Exception,), {}), "OSError": OSError}[spec.get("exc", "RuntimeError")]
 			class NoText:
 				def __str__(self):
-					raise RuntimeError("no text")
+					raise exc("no text")
 				__repr__ = __str__
 			spec = dict(spec)
 			if kind == "vector":
@@ -578,6 +600,10 @@ def run(chk):
 							"namepat": namepat, "dtpat": dtpat, "polluter": None}, "table-truth-zero-rows")
 					chk.case("table_truth", {"names": names, "cols": cols, "limit": limit, "override": override, "simple": True,
 						"namepat": namepat, "dtpat": dtpat, "polluter": rng.choice([None, None, "empty-peek", "zero-col-override", "table-override", "vector-long", "failing"])}, "table-truth")
+					if nrows and ncols >= 5 and dtpat in ("same", "nullable-mix"):
+						# the same table shown once, then a hidden (or shown) column changes its dtype in place
+						chk.case("table_truth", {"names": names, "cols": cols, "limit": limit, "override": override, "simple": True, "namepat": namepat, "dtpat": dtpat, "polluter": None,
+							"write_after_repr": (rng.choice([ncols // 2, 5 if ncols > 10 else 0, ncols - 1, 6 if ncols > 11 else 1]), rng.choice(["none", "float"]), rng.choice(["view", "cell"]))}, "table-truth-write-after-repr")
 	for vals in (["  b", "xyz"], [" a", "a", "  a"], ["x", "   y", "zzzz"], ["\tq", "r s"][1:] + [" r"]):
 		chk.case("str_cells", {"values": vals}, "str-cells")
 	# zeros of both signs, in both orders within one process (what was shown first must not decide how the other prints)
@@ -610,8 +636,13 @@ def run(chk):
 		chk.case("total", {"obj": "table", "cols": [vals, list(range(len(vals)))], "names": ["a", "b"], "what": what + "-table"}, "total-huge-int")
 	chk.case("total", {"obj": "vector", "values": [1, 2], "name": big, "what": "huge-int-as-name"}, "total-huge-int")
 	for what in ("unprintable-only", "unprintable-mixed"):
-		chk.case("total", {"obj": "vector", "values": [], "name": None, "what": what, "factory": "unprintable"}, "total-unprintable")
-		chk.case("total", {"obj": "table", "cols": [], "names": ["a", "b"], "what": what + "-table", "factory": "unprintable"}, "total-unprintable")
+		for exc in ("RuntimeError", "AttributeError", "KeyError", "ZeroDivisionError", "Custom", "OSError"):
+			chk.case("total", {"obj": "vector", "values": [], "name": None, "what": what, "factory": "unprintable", "exc": exc}, "total-unprintable")
+			chk.case("total", {"obj": "table", "cols": [], "names": ["a", "b"], "what": what + "-table", "factory": "unprintable", "exc": exc}, "total-unprintable")
+	for classname in ("date", "float", "int", "str", "datetime", "bool", "complex", "object"):
+		for what in ("namesake-only", "namesake-with-none"):
+			chk.case("total", {"obj": "vector", "values": [], "name": None, "what": what, "factory": "namesake", "classname": classname}, "total-namesake")
+		chk.case("total", {"obj": "table", "cols": [], "names": ["a", "b"], "what": "namesake-table", "factory": "namesake", "classname": classname}, "total-namesake")
 	chk.case("total", {"obj": "vector", "values": [], "name": None, "what": "empty"}, "total-empty")
 	chk.case("total", {"obj": "vector", "values": [], "name": "nm", "what": "empty-named"}, "total-empty")
 	chk.case("total", {"obj": "vector", "values": [None, None], "name": None, "what": "all-none"}, "total-empty")
